@@ -380,6 +380,15 @@ type hwInner struct {
 type hwEmbedded struct {
 	Label string
 }
+
+// hwIntBox: numeric fields that are not float64 (what a projection over them yields is a list
+// of Go integers, not of JSON numbers: functions may refuse it, never panic on it)
+type hwIntBox struct {
+	N   int
+	U   uint8
+	F   float32
+	I64 int64
+}
 type hwLabel string
 type hwScore float64
 type hwBool bool
@@ -407,9 +416,14 @@ type hwDoc struct {
 	PNil   *[]string
 	Zero   *hwInner // a non-nil pointer to an all-zero struct: an object, hence true-like
 	ZeroV  hwInner
+	Ints   []hwIntBox
+	Count  int
 }
 
-var hwExprs = []string{"PSlice.x", "PSlice.Name", "PNil.x", "PSlice.x.y", "[PSlice.x]", "PSlice.*", "Items[*].Tags.x", "Nums.x", "Strs[0].x", "!@", "@ || Name", "@ && Name", "Items[?@]", "Items[?!@]", "Items[?@].Name", "[Ptr, NilPtr][?@]", "Ptr && Name", "!Ptr", "Ptr || Name", "!Zero", "Zero && Name", "Zero || Name", "[Zero][?@]", "[Zero, NilPtr, Ptr][?@].Name", "!ZeroV", "ZeroV && Name", "[ZeroV][?@]", "!Inner", "Items[?@ && Name]", "length(PSlice)", "reverse(PSlice)", "PSlice[0]", "PSlice[*]", "PSlice[1:]", "PSlice[]", "PSlice[?@]", "contains(PSlice, 'a')", "map(&@, PSlice)", "sort_by(PSlice, &@)", "max_by(PSlice, &@)", "min_by(PSlice, &@)", "sort(PSlice)", "join(',', PSlice)",
+var hwExprs = []string{"avg(Ints[*].N)", "sum(Ints[*].N)", "max(Ints[*].U)", "min(Ints[*].F)", "sort(Ints[*].N)", "abs(Ints[0].N)", "Ints[*].N | avg(@)", "sort_by(Ints, &N)", "max_by(Ints, &U)", "min_by(Ints, &I64)", "Ints[?N > `1`]", "join(',', Ints[*].N)",
+	"to_string(Ints[*].N)", "ceil(Ints[0].F)", "floor(Ints[0].I64)", "avg([Ints[0].N, `1`])", "sum([Count, Count])", "contains(Ints[*].N, `1`)", "abs(Count)", "Count > `1`", "Count == `2`", "to_number(Count)", "to_string(Count)", "type(Count)", "max([Count, `1`])", "sort([Count, Count])",
+	"map(&abs(N), Ints)", "Ints[*].[N, U, F]", "Ints[].N", "reverse(Ints[*].N)", "not_null(Count)", "length(Ints[*].N)", "sort_by(Ints[*].N, &@)", "max_by(Ints[*].U, &@)", "merge({a: Count}, {b: Ints[0].N})", "Ints[*].N == Ints[*].N", "Ints[0].N < Ints[1].N",
+	"PSlice.x", "PSlice.Name", "PNil.x", "PSlice.x.y", "[PSlice.x]", "PSlice.*", "Items[*].Tags.x", "Nums.x", "Strs[0].x", "!@", "@ || Name", "@ && Name", "Items[?@]", "Items[?!@]", "Items[?@].Name", "[Ptr, NilPtr][?@]", "Ptr && Name", "!Ptr", "Ptr || Name", "!Zero", "Zero && Name", "Zero || Name", "[Zero][?@]", "[Zero, NilPtr, Ptr][?@].Name", "!ZeroV", "ZeroV && Name", "[ZeroV][?@]", "!Inner", "Items[?@ && Name]", "length(PSlice)", "reverse(PSlice)", "PSlice[0]", "PSlice[*]", "PSlice[1:]", "PSlice[]", "PSlice[?@]", "contains(PSlice, 'a')", "map(&@, PSlice)", "sort_by(PSlice, &@)", "max_by(PSlice, &@)", "min_by(PSlice, &@)", "sort(PSlice)", "join(',', PSlice)",
 	"to_array(PSlice)", "to_string(PSlice)", "type(PSlice)", "not_null(PSlice)", "PSlice == PSlice", "PSlice || Name", "length(PNil)", "reverse(PNil)", "PNil[0]", "PNil[*]", "contains(PNil, 'a')", "map(&@, PNil)", "type(PNil)", "merge(@, {a: PSlice})", "keys(PSlice)", "values(PSlice)", "max(PSlice)", "sum(PSlice)", "\"ǆep\"", "\"Ǆep\"", "\"ǅep\"", "\"ანი\"", "\"Ანი\"", "[\"ǆep\", \"ანი\"]", "Items[*].\"ǆep\"", "length(\"ანი\")", "_x", "lower", "Lower", "\"ünï\"", "\"Ünï\"", "Items[*].\"ünï\"", "\"ωmega\"", "@.\"Ωmega\"", "[\"ünï\", \"ωmega\"]", "{a: \"ünï\"}", "\"ünï\" || Name", "length(\"ünï\")", "Label", "label", "hwEmbedded", "HwEmbedded.Label", "NilPtr.[Name]", "NilPtr.{a: Name}",
 	"NilPtr || Name", "NilPtr && Name", "!NilPtr", "Items[*].Name", "Items[?Name].Tags[]", "Items[].Tags", "Items[0]", "Items[1]", "Items[1].[Name]", "Items[*].[Name]", "[Ptr, NilPtr]",
 	"reverse(Nums)", "reverse(Strs)", "contains(Strs, 'a')", "contains(Nums, `1`)", "map(&@, Nums)", "map(&Name, Items)", "sort_by(Items, &Name)", "max_by(Items, &Name)", "min_by(Items, &Name)",
@@ -426,7 +440,7 @@ var hwExprs = []string{"PSlice.x", "PSlice.Name", "PNil.x", "PSlice.x.y", "[PSli
 func TestC18HandWritten(t *testing.T) {
 	in := &hwInner{Name: "n", Tags: []string{"x", "y"}}
 	docs := []interface{}{
-		hwDoc{Zero: &hwInner{}, PSlice: &[]string{"b", "a"}, Ǆep: "dz", Ანი: "ge", Ünï: "u", Ωmega: []string{"o1", "o2"}, Label: "lab", Score: 2.5, On: true, Labels: []hwLabel{"b", "a"}, Name: "d", Items: []*hwInner{in, nil, {Name: "", Tags: []string{}}}, Inner: *in, Ptr: in, Nums: []float64{2, 1}, Strs: []string{"b", "a"}},
+		hwDoc{Ints: []hwIntBox{{N: 3, U: 200, F: 1.5, I64: -9}, {N: 1, U: 0, F: -0.5, I64: 1 << 40}}, Count: 2, Zero: &hwInner{}, PSlice: &[]string{"b", "a"}, Ǆep: "dz", Ანი: "ge", Ünï: "u", Ωmega: []string{"o1", "o2"}, Label: "lab", Score: 2.5, On: true, Labels: []hwLabel{"b", "a"}, Name: "d", Items: []*hwInner{in, nil, {Name: "", Tags: []string{}}}, Inner: *in, Ptr: in, Nums: []float64{2, 1}, Strs: []string{"b", "a"}},
 		&hwDoc{Items: []*hwInner{}, Nums: []float64{}, Strs: []string{}},
 		(*hwDoc)(nil),
 		[]hwDoc{{Name: "x", Nums: []float64{1}, Strs: []string{"a"}, Items: []*hwInner{nil}}},
